@@ -431,6 +431,11 @@ impl<'a> Builder<'a> {
             let x = bd.vm.sc_account(None, None);
             bd.a.insert(r.to_string(), x);
         }
+        let egld = BigUint::from(10u64).pow(20);
+        for r in ROLES {
+            let x = bd.ad(r);
+            bd.vm.set_egld(&x, &egld);
+        }
         bd
     }
     fn ad(&self, k: &str) -> Address {
@@ -626,6 +631,7 @@ fn build_farm(vm: &mut Vm, c: &str, variant: &str, amt: u64) -> Uni {
     bd.vm.set_roles(&farm, REW, &["ESDTRoleLocalMint", "ESDTRoleLocalBurn"]);
     let big = BigUint::from(10u64).pow(15);
     bd.fund_all(farming, &big);
+    bd.fund_all(REW, &big);
     let _ = bd.ok("owner", "farm", "setEnergyFactoryAddress", vec![a_addr(&bd.ad("energy"))], &[]);
     let _ = bd.ok("owner", "farm", "setPermissionsHubAddress", vec![a_addr(&bd.ad("hub"))], &[]);
     let _ = bd.ok("owner", "farm", "addToPauseWhitelist", vec![a_addr(&bd.ad("pauser"))], &[]);
@@ -635,13 +641,19 @@ fn build_farm(vm: &mut Vm, c: &str, variant: &str, amt: u64) -> Uni {
         let _ = bd.ok("owner", "farm", "setLockEpochs", vec![a_u64(360)], &[]);
         let _ = bd.ok("owner", "energy", "addSCAddressToWhitelist", vec![a_addr(&farm)], &[]);
     }
-    let _ = bd.ok("admin", "farm", "setPerBlockRewardAmount", vec![a_u64(1000)], &[]);
-    let _ = bd.ok("admin", "farm", "setBoostedYieldsRewardsPercentage", vec![a_u64(2500)], &[]);
-    let _ = bd.ok("admin", "farm", "setBoostedYieldsFactors", vec![a_u64(10), a_u64(3), a_u64(2), a_u64(1), a_u64(1)], &[]);
     if variant != "notoken" {
+        let _ = bd.ok("admin", "farm", "setPerBlockRewardAmount", vec![a_u64(1000)], &[]);
+        let _ = bd.ok("admin", "farm", "setBoostedYieldsRewardsPercentage", vec![a_u64(2500)], &[]);
+        let _ = bd.ok("admin", "farm", "setBoostedYieldsFactors", vec![a_u64(10), a_u64(3), a_u64(2), a_u64(1), a_u64(1)], &[]);
         let _ = bd.ok("pauser", "farm", "resume", vec![], &[]);
         bd.vm.set_nonce(10);
         let _ = bd.ok("admin", "farm", "startProduceRewards", vec![], &[]);
+        if c == "farm" {
+            // `user` (and only `user`) has energy: boosted rewards become pending for it
+            let _ = bd.ok("owner", "energy", "setUserEnergy", vec![a_addr(&bd.ad("user")), a_u64(1_000_000), a_u64(10_000)], &[]);
+        } else {
+            let _ = bd.ok("user", "energy", "lockTokens", vec![a_u64(1440)], &[esdt(REW, 0, &b(1_000_000))]);
+        }
         let pos = b(1_000_000 + amt);
         for r in ROLES {
             for k in ["pos1", "pos2"] {
@@ -663,7 +675,8 @@ fn build_farm(vm: &mut Vm, c: &str, variant: &str, amt: u64) -> Uni {
         bd.vm.set_nonce(20);
         let _ = bd.ok("admin", "farm", "endProduceRewards", vec![], &[]);
         bd.vm.set_nonce(25);
-        bd.vm.set_epoch(50);
+        // week 2 (boosted rewards of week 1 are pending for `user`); "late" = week 8
+        bd.vm.set_epoch(if variant == "late" { 50 } else { 8 });
         bd.n.insert("pos".into(), 1_000_000 + amt);
     }
     bd.n.insert("amt".into(), 1000 + amt % 1000);
@@ -683,7 +696,7 @@ fn farm_call(u: &Uni, c: &str, e: &str, role: &str, same: bool) -> Option<Call> 
         "mergeFarmTokens" => callp(vec![], vec![pos("pos1"), pos("pos2")]),
         "mergeFarmTokens@orig" => callp(vec![a_addr(me)], vec![pos("pos1"), pos("pos2")]),
         "claimBoostedRewards" => call(vec![]),
-        "claimBoostedRewards@other" => call(vec![a_addr(u.addr("user"))]),
+        "claimBoostedRewards@other" => call(vec![a_addr(u.addr(if role == "user" { "agent" } else { "user" }))]),
         "startProduceRewards" | "endProduceRewards" | "collectUndistributedBoostedRewards" => call(vec![]),
         "setPerBlockRewardAmount" => call(vec![a_u64(2000)]),
         "setBoostedYieldsRewardsPercentage" => call(vec![a_u64(3000)]),
@@ -711,6 +724,96 @@ fn farm_call(u: &Uni, c: &str, e: &str, role: &str, same: bool) -> Option<Call> 
             if c == "staking" { call(vec![a_u64(1000), attrs]) } else { call(vec![a_addr(me), a_u64(1000), attrs]) }
         }
         _ => None,
+    }
+}
+
+// ---------------------------------------------------------------------------------------
+// farm-staking (deployment follows farm-staking/tests/farm_staking_setup)
+// ---------------------------------------------------------------------------------------
+fn build_staking(vm: &mut Vm, variant: &str, amt: u64) -> Uni {
+    let mut bd = Builder::new(vm);
+    hub_setup(&mut bd);
+    energy_setup(&mut bd, REW);
+    bd.deploy("farm", "owner", "staking");
+    let _ = bd.ok("owner", "farm", "init", vec![FARMING.to_vec(), a_u64(1_000_000_000_000), a_u64(2_500), a_u64(1),
+        a_addr(&bd.ad("owner")), a_addr(&bd.ad("admin"))], &[]);
+    let farm = bd.ad("farm");
+    if variant != "notoken" {
+        bd.store("farm", b"farm_token_id", FARMTOK.to_vec());
+    }
+    bd.vm.set_roles(&farm, FARMTOK, &FARM_ROLES);
+    bd.vm.set_roles(&farm, FARMING, &["ESDTRoleLocalBurn"]);
+    let big = BigUint::from(10u64).pow(15);
+    bd.fund_all(FARMING, &big);
+    bd.fund_all(REW, &big);
+    let _ = bd.ok("owner", "farm", "setEnergyFactoryAddress", vec![a_addr(&bd.ad("energy"))], &[]);
+    let _ = bd.ok("owner", "farm", "setPermissionsHubAddress", vec![a_addr(&bd.ad("hub"))], &[]);
+    let _ = bd.ok("owner", "farm", "addToPauseWhitelist", vec![a_addr(&bd.ad("pauser"))], &[]);
+    let _ = bd.ok("owner", "farm", "addSCAddressToWhitelist", vec![a_addr(&bd.ad("wsc"))], &[]);
+    if variant != "notoken" {
+        let _ = bd.ok("admin", "farm", "setPerBlockRewardAmount", vec![a_u64(1000)], &[]);
+        let _ = bd.ok("admin", "farm", "topUpRewards", vec![], &[esdt(FARMING, 0, &b(1_000_000_000_000))]);
+        let _ = bd.ok("admin", "farm", "setBoostedYieldsRewardsPercentage", vec![a_u64(2500)], &[]);
+        let _ = bd.ok("admin", "farm", "setBoostedYieldsFactors", vec![a_u64(10), a_u64(3), a_u64(2), a_u64(1), a_u64(1)], &[]);
+        let _ = bd.ok("pauser", "farm", "resume", vec![], &[]);
+        bd.vm.set_nonce(10);
+        let _ = bd.ok("admin", "farm", "startProduceRewards", vec![], &[]);
+        let _ = bd.ok("user", "energy", "lockTokens", vec![a_u64(1440)], &[esdt(REW, 0, &b(1_000_000))]);
+        let pos = b(1_000_000 + amt);
+        for r in ROLES {
+            for k in ["pos1", "pos2", "pos3"] {
+                let _ = bd.ok(r, "farm", "stakeFarm", vec![], &[esdt(FARMING, 0, &pos)]);
+                let n = last_nonce(&bd, r, FARMTOK);
+                bd.n.insert(format!("{k}.{r}"), n);
+            }
+        }
+        for r in ROLES {
+            let _ = bd.ok("user", "farm", "stakeFarm", vec![], &[esdt(FARMING, 0, &pos)]);
+            let n = last_nonce(&bd, "user", FARMTOK);
+            if r != "user" {
+                let (f, t) = (bd.ad("user"), bd.ad(r));
+                bd.vm.move_esdt(&f, &t, FARMTOK, n, &pos);
+            }
+            bd.n.insert(format!("upos.{r}"), n);
+        }
+        bd.vm.set_nonce(15);
+        for r in ROLES {
+            let n3 = bd.n[&format!("pos3.{r}")];
+            let _ = bd.ok(r, "farm", "unstakeFarm", vec![], &[esdt(FARMTOK, n3, &pos)]);
+            let n = last_nonce(&bd, r, FARMTOK);
+            bd.n.insert(format!("unbond.{r}"), n);
+        }
+        bd.vm.set_nonce(20);
+        let _ = bd.ok("admin", "farm", "endProduceRewards", vec![], &[]);
+        bd.vm.set_nonce(25);
+        bd.vm.set_epoch(if variant == "late" { 50 } else { 8 });
+        bd.n.insert("pos".into(), 1_000_000 + amt);
+    }
+    bd.n.insert("amt".into(), 1000 + amt % 1000);
+    bd.finish("farm")
+}
+
+fn staking_call(u: &Uni, e: &str, role: &str) -> Option<Call> {
+    let amt = b(u.num("amt"));
+    let me = u.addr(role);
+    let pos = |k: &str| -> TxTokenTransfer { esdt(FARMTOK, u.num(&format!("{k}.{role}")), &b(u.num("pos"))) };
+    match e {
+        "stakeFarm" => callp(vec![], vec![esdt(FARMING, 0, &amt)]),
+        "stakeFarm@orig" => callp(vec![a_addr(u.addr("user"))], vec![esdt(FARMING, 0, &amt)]),
+        "stakeFarmThroughProxy" => call(vec![a_big(&amt), a_addr(u.addr("user"))]),
+        "claimRewardsWithNewValue" => callp(vec![a_u64(u.num("pos")), a_addr(me)], vec![pos("pos1")]),
+        "unstakeFarm" => callp(vec![], vec![pos("pos1")]),
+        "unstakeFarm@orig" => callp(vec![a_addr(u.addr("user"))], vec![pos("upos")]),
+        "unstakeFarmThroughProxy" => callp(vec![a_addr(me)], vec![esdt(FARMING, 0, &amt), pos("pos1")]),
+        "unbondFarm" => callp(vec![], vec![pos("unbond")]),
+        "stakeFarmOnBehalf" => callp(vec![a_addr(u.addr("user"))], vec![esdt(FARMING, 0, &amt)]),
+        "topUpRewards" => callp(vec![], vec![esdt(FARMING, 0, &amt)]),
+        "withdrawRewards" => call(vec![a_u64(1000)]),
+        "setMaxApr" => call(vec![a_u64(3000)]),
+        "setMinUnbondEpochs" => call(vec![a_u64(2)]),
+        "setBurnRoleForAddress" => call(vec![a_addr(u.addr("fresh_sc"))]),
+        "mergeFarmTokens@orig" | "compoundRewards@orig" | "exitFarm" | "enterFarm" => None,
+        _ => farm_call(u, "staking", e, role, false),
     }
 }
 
@@ -775,17 +878,19 @@ fn variant_of(c: &str, e: &str) -> &'static str {
         ("pair", "setLpTokenIdentifier") => "nolp",
         ("farm", "compoundRewards" | "compoundRewards@orig") => "same",
         ("farm" | "fwlr" | "staking", "registerFarmToken") => "notoken",
+        ("farm" | "fwlr" | "staking", "collectUndistributedBoostedRewards") => "late",
         _ => "std",
     }
 }
 
 /// endpoint variants exercised in addition to the plain ABI endpoints
-const VARIANTS: [(&str, &str); 12] = [
+const VARIANTS: [(&str, &str); 16] = [
     ("pair", "addInitialLiquidity@adder"),
     ("farm", "enterFarm@orig"), ("farm", "claimRewards@orig"), ("farm", "compoundRewards@orig"), ("farm", "exitFarm@orig"),
     ("farm", "mergeFarmTokens@orig"), ("farm", "claimBoostedRewards@other"),
     ("fwlr", "enterFarm@orig"), ("fwlr", "claimRewards@orig"), ("fwlr", "exitFarm@orig"), ("fwlr", "mergeFarmTokens@orig"),
     ("fwlr", "claimBoostedRewards@other"),
+    ("staking", "stakeFarm@orig"), ("staking", "claimRewards@orig"), ("staking", "unstakeFarm@orig"), ("staking", "claimBoostedRewards@other"),
 ];
 
 struct World {
@@ -815,6 +920,7 @@ impl World {
         let u = match c {
             "pair" => build_pair(&mut self.vm, variant, self.amt),
             "farm" | "fwlr" => build_farm(&mut self.vm, c, variant, self.amt),
+            "staking" => build_staking(&mut self.vm, variant, self.amt),
             _ => panic!("no universe for {c}"),
         };
         self.bases.insert(key, u.clone());
@@ -854,6 +960,7 @@ impl World {
         let specific = match c {
             "pair" => pair_call(u, e, role),
             "farm" | "fwlr" => farm_call(u, c, e, role, variant_of(c, e) == "same"),
+            "staking" => staking_call(u, e, role),
             _ => None,
         };
         if specific.is_some() {
@@ -879,7 +986,7 @@ impl World {
         let mut args = vec![];
         for i in ep.inputs.iter() {
             args.push(match i.type_names.abi.as_str() {
-                "Address" => a_addr(u.addr(role)),
+                "Address" => a_addr(u.addr(if c == "hub" || c == "lkmex" { role } else { "user" })),
                 "u32" | "u64" | "usize" => a_u64(1),
                 "BigUint" => a_u64(1000),
                 _ => return None,
